@@ -869,7 +869,7 @@ class World:
         s = strip_generics(path)
         last = s.split("::")[-1]
         b = self.prog.statics.get(last)
-        if b is not None and b.header.startswith("const "):
+        if b is not None and b.header.startswith("const ") and "{constant#" not in last:
             key = "const:" + b.name
             if key not in it.static_cells:
                 it.static_cells[key] = Cell(it.run(Frame(b), None)[1], key)
